@@ -16,6 +16,10 @@ POOL = "workers.workers.WorkerPool"
 WorkerMap = S_.WorkerMap
 
 
+def pool_map(h, p):
+    return h.rd(p, POOL, "_placed_tasks")[1]
+
+
 def pool_workers(h, p):
     return h.rd(p, POOL, "_workers")[1]
 
@@ -44,7 +48,8 @@ Contract(
 # =================================================================================================
 # WorkerPool.step : the body against the abstract contract the simulator proofs use (C03 / C05)
 # =================================================================================================
-from contracts.c_workers import wf_worker, _placed_tasks_wf, wap, wpp, wpt, step_finishes, step_rel, TaskList, PT, PF, closed_wmaps  # noqa: E402
+from contracts.c_workers import wf_worker, wf_worker_parts, _placed_tasks_wf, wap, wpp, wpt, wpb, wbt, wres, step_finishes, step_rel, TaskList, PT, PB, BT, PF, TS, closed_wmaps, is_batch  # noqa: E402
+from contracts.c_resources import rv, tot, am, RV, AM, V, held  # noqa: E402
 from contracts.c_tasks import TASK, wf_task, some, get, RUNNING  # noqa: E402
 from contracts.c_utils import ETy, us  # noqa: E402
 
@@ -59,17 +64,48 @@ def wf_pool_parts(h, p):
     """Pool invariant: every worker satisfies the ledger invariant WF_W (and the Task invariant for its residents); the
     workers are distinct objects with separate profile maps; a task is resident on at most one worker (C01)."""
     k, k2, t = z3.Int(H.fresh_name("wp_k")), z3.Int(H.fresh_name("wp_k2")), z3.Int(H.fresh_name("wp_t"))
+    b, b2 = z3.Int(H.fresh_name("wp_b")), z3.Int(H.fresh_name("wp_b2"))
     n = n_workers(h, p)
     wk, wk2 = worker_at(h, p, k), worker_at(h, p, k2)
+    per_worker = {"not_none": wk != 0, "residents_wf": _placed_tasks_wf(h, wk), "profile_maps_distinct": wap(h, wk) != wpp(h, wk)}
+    for nm, g in wf_worker_parts(h, wk).items():
+        per_worker["WF." + nm] = g
+    out = {"workers_wf." + nm: z3.ForAll([k], z3.Implies(z3.And(0 <= k, k < n), g), patterns=[wk]) for nm, g in per_worker.items()}
+    out.update(_pool_sep_parts(h, p, k, k2, t, b, b2, n, wk, wk2))
+    return out
+
+
+def _pool_sep_parts(h, p, k, k2, t, b, b2, n, wk, wk2):
     return {
-        "workers_wf": z3.ForAll([k], z3.Implies(z3.And(0 <= k, k < n), z3.And(wk != 0, wf_worker(h, wk), _placed_tasks_wf(h, wk), wap(h, wk) != wpp(h, wk))), patterns=[wk]),
+        # no two workers share a container: each worker owns its resource vectors, allocation map, resident / batch /
+        # profile maps and the member sets of its batches (what Worker.__init__ creates)
         "workers_separate": z3.ForAll(
             [k, k2],
             z3.Implies(
-                z3.And(0 <= k, k < k2, k2 < n),
-                z3.And(wk != wk2, wap(h, wk) != wap(h, wk2), wap(h, wk) != wpp(h, wk2), wpp(h, wk) != wap(h, wk2), wpp(h, wk) != wpp(h, wk2), wpt(h, wk) != wpt(h, wk2)),
+                z3.And(0 <= k, k < n, 0 <= k2, k2 < n, k != k2),
+                z3.And(
+                    wk != wk2,
+                    wap(h, wk) != wap(h, wk2),
+                    wap(h, wk) != wpp(h, wk2),
+                    wpp(h, wk) != wpp(h, wk2),
+                    wpt(h, wk) != wpt(h, wk2),
+                    wpb(h, wk) != wpb(h, wk2),
+                    wbt(h, wk) != wbt(h, wk2),
+                    wres(h, wk) != wres(h, wk2),
+                    rv(h, wres(h, wk)) != rv(h, wres(h, wk2)),
+                    rv(h, wres(h, wk)) != tot(h, wres(h, wk2)),
+                    am(h, wres(h, wk)) != am(h, wres(h, wk2)),
+                ),
             ),
             patterns=[z3.MultiPattern(wk, wk2)],
+        ),
+        "batch_sets_separate": z3.ForAll(
+            [k, k2, b, b2],
+            z3.Implies(
+                z3.And(0 <= k, k < n, 0 <= k2, k2 < n, k != k2, h.d_dom(PB, wpb(h, wk), b), h.d_dom(PB, wpb(h, wk2), b2)),
+                h.d_val(PB, wpb(h, wk), b) != h.d_val(PB, wpb(h, wk2), b2),
+            ),
+            patterns=[z3.MultiPattern(h.d_val(PB, wpb(h, wk), b), h.d_val(PB, wpb(h, wk2), b2))],
         ),
         "resident_on_one_worker": z3.ForAll(
             [k, k2, t],
@@ -206,7 +242,24 @@ def closed_pool(c):
         "heap.closed",
         z3.And(
             pool_workers(c.pre, p) < c.alloc0,
-            z3.ForAll([k], z3.Implies(z3.And(0 <= k, k < n_workers(c.pre, p)), z3.And(wk < c.alloc0, wpt(c.pre, wk) < c.alloc0, wap(c.pre, wk) < c.alloc0, wpp(c.pre, wk) < c.alloc0)), patterns=[wk]),
+            z3.ForAll(
+                [k],
+                z3.Implies(
+                    z3.And(0 <= k, k < n_workers(c.pre, p)),
+                    z3.And(
+                        wk < c.alloc0, wpt(c.pre, wk) < c.alloc0, wap(c.pre, wk) < c.alloc0, wpp(c.pre, wk) < c.alloc0, wpb(c.pre, wk) < c.alloc0, wbt(c.pre, wk) < c.alloc0,
+                        wres(c.pre, wk) < c.alloc0, rv(c.pre, wres(c.pre, wk)) < c.alloc0, tot(c.pre, wres(c.pre, wk)) < c.alloc0, am(c.pre, wres(c.pre, wk)) < c.alloc0,
+                    ),
+                ),
+                patterns=[wk],
+            ),
+            z3.ForAll([k, t], z3.Implies(z3.And(0 <= k, k < n_workers(c.pre, p), c.pre.d_dom(PB, wpb(c.pre, wk), t)), c.pre.d_val(PB, wpb(c.pre, wk), t) < c.alloc0), patterns=[c.pre.d_val(PB, wpb(c.pre, wk), t)]),
+            z3.ForAll(
+                [k, t],
+                z3.Implies(z3.And(0 <= k, k < n_workers(c.pre, p), c.pre.d_dom(AM, am(c.pre, wres(c.pre, wk)), t)), c.pre.d_val(AM, am(c.pre, wres(c.pre, wk)), t) < c.alloc0),
+                patterns=[c.pre.d_val(AM, am(c.pre, wres(c.pre, wk)), t)],
+            ),
+            pool_map(c.pre, p) < c.alloc0,
             z3.ForAll([k, t], z3.Implies(z3.And(0 <= k, k < n_workers(c.pre, p), c.pre.d_dom(PT, wpt(c.pre, wk), t)), z3.And(0 < t, t < c.alloc0)), patterns=[c.pre.d_dom(PT, wpt(c.pre, wk), t)]),
         ),
     )
@@ -225,4 +278,307 @@ Contract(
     allocates=True,
     note="the body of WorkerPool.step verified against the abstract contract that Simulator.__step / simulate use, under the pool invariant (every worker WF_W, residents well formed, a task resident on at most one worker)",
     props=("C03", "C05", "C01"),
+)
+
+
+# =================================================================================================
+# WorkerPool.remove_task : the body in terms of Worker.remove_task (C04 / C01)
+# =================================================================================================
+from contracts.c_workers import _remove_ens as _w_remove_ens, _remove_raises as _w_remove_raises, _remove_mod as _w_remove_mod  # noqa: E402
+
+PoolPlaced = S_.PoolPlaced
+
+
+def worker_by_id(h, p, wid):
+    return h.d_val(WorkerMap, pool_workers(h, p), wid)
+
+
+def pool_map_parts(h, p):
+    """the pool's task -> worker-id map agrees with the workers: a mapped task is resident on the worker it names, and
+    every resident of a worker is mapped to that worker's key"""
+    t, k = z3.Int(H.fresh_name("pm_t")), z3.Int(H.fresh_name("pm_k"))
+    m = pool_map(h, p)
+    d = pool_workers(h, p)
+    wid = h.d_val(PoolPlaced, m, t)
+    wk = worker_at(h, p, k)
+    return {
+        "map_distinct_object": m != 0,
+        "mapped_task_is_resident_there": z3.ForAll(
+            [t], z3.Implies(h.d_dom(PoolPlaced, m, t), z3.And(h.d_dom(WorkerMap, d, wid), h.d_dom(PT, wpt(h, worker_by_id(h, p, wid)), t))), patterns=[h.d_dom(PoolPlaced, m, t)]
+        ),
+        "resident_is_mapped": z3.ForAll(
+            [k, t],
+            z3.Implies(z3.And(0 <= k, k < n_workers(h, p), h.d_dom(PT, wpt(h, wk), t)), z3.And(h.d_dom(PoolPlaced, m, t), h.d_val(PoolPlaced, m, t) == h.d_key(WorkerMap, d, k))),
+            patterns=[h.d_dom(PT, wpt(h, wk), t)],
+        ),
+    }
+
+
+def _premove_names(c):
+    p, task = c.arg("self"), c.arg("task")
+    wid = c.pre.d_val(PoolPlaced, pool_map(c.pre, p), task)
+    return p, task, wid, worker_by_id(c.pre, p, wid)
+
+
+def _premove_requires(c):
+    out = dict(wf_pool_parts(c.pre, c.arg("self")))
+    out.update(pool_map_parts(c.pre, c.arg("self")))
+    return out
+
+
+def _premove_raises(c):
+    p, task, wid, w = _premove_names(c)
+    return z3.Or(z3.Not(c.pre.d_dom(PoolPlaced, pool_map(c.pre, p), task)), _w_remove_raises(c, w=w, task=task))
+
+
+def _premove_mod(c):
+    p, task, wid, w = _premove_names(c)
+    out = _w_remove_mod(c, w=w, task=task)
+    for part in ("len", "keys", "idx", "dom"):
+        out[c.pre.carr(PoolPlaced, part)[0]] = [pool_map(c.pre, p)]
+    return out
+
+
+def _premove_ens(c):
+    p, task, wid, w = _premove_names(c)
+    n = n_workers(c.pre, p)
+    k, t = z3.Int(H.fresh_name("pr_k")), z3.Int(H.fresh_name("pr_t"))
+    wk = worker_at(c.pre, p, k)
+    m = pool_map(c.pre, p)
+    out = {}
+    # C04: on the worker that held the task, exactly Worker.remove_task's (proved) effect
+    for nm, g in _w_remove_ens(c, w=w, task=task).items():
+        out["pool_remove.on_its_worker." + nm] = g
+    # C01 / C04: no other worker changes (availability, residents)
+    out["pool_remove.other_workers_untouched"] = z3.ForAll(
+        [k],
+        z3.Implies(
+            z3.And(0 <= k, k < n, wk != w),
+            z3.And(V(c.post, rv(c.pre, wres(c.pre, wk))) == V(c.pre, rv(c.pre, wres(c.pre, wk))), c.post.d_doms(PT, wpt(c.pre, wk)) == c.pre.d_doms(PT, wpt(c.pre, wk))),
+        ),
+        patterns=[wk],
+    )
+    out["pool_remove.resident_nowhere"] = z3.ForAll([k], z3.Implies(z3.And(0 <= k, k < n), z3.Not(c.post.d_dom(PT, wpt(c.pre, wk), task))), patterns=[wk])
+    out["pool_remove.map_entry_dropped"] = z3.And(
+        z3.Not(c.post.d_dom(PoolPlaced, m, task)),
+        z3.ForAll([t], z3.Implies(t != task, z3.And(c.post.d_dom(PoolPlaced, m, t) == c.pre.d_dom(PoolPlaced, m, t), c.post.d_val(PoolPlaced, m, t) == c.pre.d_val(PoolPlaced, m, t))), patterns=[c.post.d_dom(PoolPlaced, m, t)]),
+    )
+    for nm, g in wf_pool_parts(c.post, p).items():
+        out["pool_remove.preserves_pool_invariant." + nm] = g
+    for nm, g in pool_map_parts(c.post, p).items():
+        out["pool_remove.preserves_map_agreement." + nm] = g
+    return out
+
+
+def kstar(c, p, wid):
+    return z3.Select(z3.Select(c.pre.carr(WorkerMap, "idx")[1], pool_workers(c.pre, p)), wid)
+
+
+def _premove_at_del(c, L):
+    p, task, wid, w = _premove_names(c)
+    n = n_workers(c.pre, p)
+    k = z3.Int(H.fresh_name("pa_k"))
+    wk = worker_at(c.pre, p, k)
+    ks = kstar(c, p, wid)
+    return {
+        "its_worker_is_a_pool_worker": z3.And(0 <= ks, ks < n, worker_at(c.pre, p, ks) == w),
+        "other_workers_footprint_untouched": z3.ForAll(
+            [k],
+            z3.Implies(
+                z3.And(0 <= k, k < n, k != ks),
+                z3.And(
+                    V(c.post, rv(c.pre, wres(c.pre, wk))) == V(c.pre, rv(c.pre, wres(c.pre, wk))),
+                    *[z3.Select(c.post.carr(PT, part)[1], wpt(c.pre, wk)) == z3.Select(c.pre.carr(PT, part)[1], wpt(c.pre, wk)) for part in ("len", "keys", "idx", "dom", "val")],
+                    *[z3.Select(c.post.carr(PB, part)[1], wpb(c.pre, wk)) == z3.Select(c.pre.carr(PB, part)[1], wpb(c.pre, wk)) for part in ("len", "keys", "idx", "dom", "val")],
+                    *[z3.Select(c.post.carr(BT, part)[1], wbt(c.pre, wk)) == z3.Select(c.pre.carr(BT, part)[1], wbt(c.pre, wk)) for part in ("len", "keys", "idx", "dom", "val")],
+                    *[z3.Select(c.post.carr(AM, part)[1], am(c.pre, wres(c.pre, wk))) == z3.Select(c.pre.carr(AM, part)[1], am(c.pre, wres(c.pre, wk))) for part in ("len", "keys", "idx", "dom", "val")],
+                ),
+            ),
+            patterns=[wk],
+        ),
+    }
+
+
+Contract(
+    "workers.workers.WorkerPool.remove_task#body",
+    at={"del self._placed_tasks[task]": _premove_at_del},
+    params={"self": S_.WorkerPool.ty, "current_time": ETy, "task": S_.TASKR},
+    requires=_premove_requires,
+    raises={"ValueError": _premove_raises},
+    modifies=_premove_mod,
+    ensures=_premove_ens,
+    entry_facts=lambda c: [closed_pool(c)],
+    note="the body of WorkerPool.remove_task in terms of the proved Worker.remove_task, under the pool invariant and the agreement of the pool's task->worker map with the workers; callers (the finish handler) use an abstract contract that says no Task / Event / queue field is touched",
+    props=("C04", "C01"),
+)
+
+
+# =================================================================================================
+# WorkerPool.place_task : the body in terms of Worker.can_accomodate_strategy / Worker.place_task (C01 / C04)
+# =================================================================================================
+from contracts.c_workers import _place_ens as _w_place_ens, _place_mod as _w_place_mod, request_ok  # noqa: E402
+
+STRATQ = "workload.strategy.ExecutionStrategy"
+
+
+def _pplace_requires(c):
+    p, task, s = c.arg("self"), c.arg("task"), c.arg("execution_strategy")
+    n = n_workers(c.pre, p)
+    k = z3.Int(H.fresh_name("pq_k"))
+    wk = worker_at(c.pre, p, k)
+    out = dict(wf_pool_parts(c.pre, p))
+    out.update(pool_map_parts(c.pre, p))
+    out["no_pool_level_scheduler"] = c.pre.rd(p, POOL, "_scheduler")[1] == 0
+    out["strategy_given"] = z3.And(s != 0, c.pre.rd(s, STRATQ, "_batch_size")[1] >= 1)
+    out["task_given"] = z3.And(task != 0, c.pre.cls_tag(task) == CLASSES[TASK].code, wf_task(c.pre, task))
+    # call-site conditions of Worker.place_task, for every worker of the pool
+    out["request_ok_everywhere"] = z3.ForAll([k], z3.Implies(z3.And(0 <= k, k < n), request_ok(c.pre, wk, s)), patterns=[wk])
+    out["task_resident_nowhere"] = z3.ForAll(
+        [k], z3.Implies(z3.And(0 <= k, k < n), z3.And(z3.Not(c.pre.d_dom(PT, wpt(c.pre, wk), task)), z3.Not(c.pre.d_dom(AM, am(c.pre, wres(c.pre, wk)), task)))), patterns=[wk]
+    )
+    return out
+
+
+def _pplace_sel(c):
+    """(named, worker named by worker_id, predicate 'k is the first worker that accepts the strategy')"""
+    p, s, wid = c.arg("self"), c.arg("execution_strategy"), c.arg("worker_id")
+    n = n_workers(c.pre, p)
+    named = z3.Not(T.opt_is_none(S_.OptSTR, wid))
+    wid_s = T.opt_get(S_.OptSTR, wid)
+
+    def first_fit(k):
+        j = z3.Int(H.fresh_name("ff_j"))
+        wj = worker_at(c.pre, p, j)
+        return z3.And(0 <= k, k < n, worker_fits(c.pre, worker_at(c.pre, p, k), s), z3.ForAll([j], z3.Implies(z3.And(0 <= j, j < k), z3.Not(worker_fits(c.pre, wj, s))), patterns=[wj]))
+
+    return named, wid_s, first_fit
+
+
+def _batch_full_on(c, w, s):
+    pb = wpb(c.pre, w)
+    return z3.And(is_batch(c.pre, s), c.pre.d_dom(PB, pb, s), c.pre.c_len(TS, c.pre.d_val(PB, pb, s)) + 1 > c.pre.rd(s, STRATQ, "_batch_size")[1])
+
+
+def _pplace_raises_value(c):
+    p = c.arg("self")
+    named, wid_s, _ = _pplace_sel(c)
+    return z3.And(named, z3.Not(c.pre.d_dom(WorkerMap, pool_workers(c.pre, p), wid_s)))
+
+
+def _pplace_raises_runtime(c):
+    """Worker.place_task refuses to over-fill an open batch: only on the worker the task is sent to"""
+    p, s = c.arg("self"), c.arg("execution_strategy")
+    named, wid_s, first_fit = _pplace_sel(c)
+    k = z3.Int(H.fresh_name("rr_k"))
+    wn = worker_by_id(c.pre, p, wid_s)
+    return z3.If(
+        named,
+        z3.And(c.pre.d_dom(WorkerMap, pool_workers(c.pre, p), wid_s), worker_fits(c.pre, wn, s), _batch_full_on(c, wn, s)),
+        z3.Exists([k], z3.And(first_fit(k), _batch_full_on(c, worker_at(c.pre, p, k), s))),
+    )
+
+
+def _pplace_mod(c):
+    """any worker of the pool may be the one that changes: the frame is stated per array (ANY) and made precise by the
+    postcondition `others untouched`"""
+    p = c.arg("self")
+    out = {}
+    for ty, parts in ((RV, ("val",)), (AM, ("len", "keys", "idx", "dom", "val")), (S_.AllocList, ("len", "elem")), (PT, ("len", "keys", "idx", "dom", "val")), (PB, ("len", "keys", "idx", "dom", "val")), (BT, ("len", "keys", "idx", "dom", "val")), (TS, ("len", "keys", "idx", "dom"))):
+        for part in parts:
+            out[c.pre.carr(ty, part)[0]] = ANY
+    for part in ("len", "keys", "idx", "dom", "val"):
+        out[c.pre.carr(PoolPlaced, part)[0]] = [pool_map(c.pre, p)]
+    return out
+
+
+def _footprint_same(c, h, w):
+    """the containers a worker owns are as they were on entry (availability, allocation map, resident / batch maps)"""
+    R = wres(c.pre, w)
+    same = lambda ty, part, d: z3.Select(h.carr(ty, part)[1], d) == z3.Select(c.pre.carr(ty, part)[1], d)
+    return z3.And(
+        same(RV, "val", rv(c.pre, R)),
+        *[same(AM, part, am(c.pre, R)) for part in ("len", "keys", "idx", "dom", "val")],
+        *[same(PT, part, wpt(c.pre, w)) for part in ("len", "keys", "idx", "dom", "val")],
+        *[same(PB, part, wpb(c.pre, w)) for part in ("len", "keys", "idx", "dom", "val")],
+        *[same(BT, part, wbt(c.pre, w)) for part in ("len", "keys", "idx", "dom", "val")],
+    )
+
+
+def _all_same(c, h):
+    arrs = []
+    for ty, parts in ((RV, ("val",)), (AM, ("len", "keys", "idx", "dom", "val")), (S_.AllocList, ("len", "elem")), (PT, ("len", "keys", "idx", "dom", "val")), (PB, ("len", "keys", "idx", "dom", "val")), (BT, ("len", "keys", "idx", "dom", "val")), (TS, ("len", "keys", "idx", "dom")), (PoolPlaced, ("len", "keys", "idx", "dom", "val"))):
+        for part in parts:
+            arrs.append(h.carr(ty, part)[1] == c.pre.carr(ty, part)[1])
+    return z3.And(*arrs)
+
+
+def _pplace_ens(c):
+    p, task, s, wid = c.arg("self"), c.arg("task"), c.arg("execution_strategy"), c.arg("worker_id")
+    n = n_workers(c.pre, p)
+    d = pool_workers(c.pre, p)
+    k, j = z3.Int(H.fresh_name("pp_k")), z3.Int(H.fresh_name("pp_j"))
+    wk, wj = worker_at(c.pre, p, k), worker_at(c.pre, p, j)
+    m = pool_map(c.pre, p)
+    named = z3.Not(T.opt_is_none(S_.OptSTR, wid))
+    wid_s = T.opt_get(S_.OptSTR, wid)
+    fits_k = worker_fits(c.pre, wk, s)
+    some_fits = z3.Exists([k], z3.And(0 <= k, k < n, fits_k))
+    # the worker the task went to, read off the post-state
+    ks = z3.Select(z3.Select(c.pre.carr(WorkerMap, "idx")[1], d), c.post.d_val(PoolPlaced, m, task))
+    ws = worker_at(c.pre, p, ks)
+    out = {
+        # C04: "a refused request changes nothing"
+        "pool_place.false_changes_nothing": z3.Implies(z3.Not(c.res), _all_same(c, c.post)),
+        "pool_place.true_iff_a_worker_fits": c.res == z3.If(named, worker_fits(c.pre, worker_by_id(c.pre, p, wid_s), s), some_fits),
+        # C01: the task goes to exactly ONE worker; that worker accepted the strategy; every other worker is untouched
+        "pool_place.on_exactly_one_worker": z3.Implies(
+            c.res,
+            z3.And(
+                0 <= ks,
+                ks < n,
+                c.post.d_dom(PoolPlaced, m, task),
+                c.post.d_val(PoolPlaced, m, task) == c.pre.d_key(WorkerMap, d, ks),
+                worker_fits(c.pre, ws, s),
+                c.post.d_dom(PT, wpt(c.pre, ws), task),
+                c.post.d_val(PT, wpt(c.pre, ws), task) == s,
+                z3.ForAll([j], z3.Implies(z3.And(0 <= j, j < n, j != ks), _footprint_same(c, c.post, wj)), patterns=[wj]),
+            ),
+        ),
+        # first fit: without a worker id it is the FIRST worker (in pool order) that accepts the strategy
+        "pool_place.first_fit": z3.Implies(z3.And(c.res, z3.Not(named)), z3.ForAll([j], z3.Implies(z3.And(0 <= j, j < ks), z3.Not(worker_fits(c.pre, wj, s))), patterns=[wj])),
+        "pool_place.named_worker": z3.Implies(z3.And(c.res, named), c.pre.d_key(WorkerMap, d, ks) == wid_s),
+    }
+    for nm, g in wf_pool_parts(c.post, p).items():
+        out["pool_place.preserves_pool_invariant." + nm] = g
+    for nm, g in pool_map_parts(c.post, p).items():
+        out["pool_place.preserves_map_agreement." + nm] = g
+    return out
+
+
+def _pplace_loop1_inv(c, L):
+    """the scan for the first worker that accepts the strategy: nothing found, nothing changed so far"""
+    p, s = c.arg("self"), c.arg("execution_strategy")
+    j = z3.Int(H.fresh_name("pl_j"))
+    wj = worker_at(c.pre, p, j)
+    return {
+        "nothing_found_yet": T.opt_is_none(S_.OptSTR, L.var("placement")),
+        "earlier_workers_refuse": z3.ForAll([j], z3.Implies(z3.And(0 <= j, j < L.i), z3.Not(worker_fits(c.pre, wj, s))), patterns=[wj]),
+        "nothing_changed": _all_same(c, c.post),
+    }
+
+
+Contract(
+    "workers.workers.WorkerPool.place_task#body",
+    params={"self": S_.WorkerPool.ty, "task": S_.TASKR, "execution_strategy": S_.nullable(STRATQ), "worker_id": S_.OptSTR},
+    ret=T.BOOL,
+    requires=_pplace_requires,
+    raises={"ValueError": _pplace_raises_value, "RuntimeError": _pplace_raises_runtime},
+    modifies=_pplace_mod,
+    loops={1: Loop(inv=_pplace_loop1_inv, modifies=lambda c: {})},
+    locals={"placement": S_.OptSTR},
+    ensures=_pplace_ens,
+    entry_facts=lambda c: [closed_pool(c)],
+    allocates=True,
+    note="the body of WorkerPool.place_task for the calls the simulator and the policies make (an execution strategy is given, no pool-level scheduler is configured): verified in terms of the proved Worker.can_accomodate_strategy / Worker.place_task; the two branches excluded by the precondition (strategy None: first strategy of the task that fits; a pool-level scheduler) are NOT verified",
+    props=("C01", "C04", "C13", "C10"),
 )
